@@ -556,6 +556,7 @@ func RunUserTok(tw *TraceWriter, rng *rand.Rand, tier string) (M, error) {
 			{"other-enc-key-enc", oe, nil, "", "rdpgw", 300, true, false, true},
 			{"other-sig-key", ge, os_, "HS256", "rdpgw", 300, true, true, true},
 			{"sig-hs512", ge, gs, "HS512", "rdpgw", 300, true, true, true},
+			{"sig-hs384", ge, gs, "HS384", "rdpgw", 300, true, true, true},
 			{"sig-none", ge, nil, "none", "rdpgw", 300, true, true, true},
 			{"other-issuer", ge, gs, "HS256", "rdpgw2", 300, true, true, true},
 			{"other-issuer-enc", ge, nil, "", "evil", 300, true, false, true},
